@@ -152,12 +152,12 @@ func C14(c *core.Ctx) {
 	c.Exhaustive = true
 	skel.DepsDir = filepath.Join(c.VerifDir, "checker", "testdata", "emitdeps")
 	ruleIdent(c)
-	rules := ruleSet("A-TYP", "A-TAG")
+	rules := ruleSet("A-TYP", "A-TAG", "A-MAP")
 	for _, mb := range collisionMembers() {
 		runCollisionMember(c, mb, rules, 4096)
 	}
 	// root type names come from the file name / title / mapping, never from state keyed by something else: two files of one run get two root types
-	ruleMultiSel(c, ruleSet("A-ROUTE", "A-TYP", "A-MAP"), 2, "two files with the same $id")
+	ruleMultiSel(c, ruleSet("A-ROUTE", "A-TYP", "A-MAP"), 3, "two files with the same $id", "two files with the same base name")
 }
 
 // collisionMembers: families generated with identifier-coincidence forking.
@@ -182,6 +182,13 @@ func collisionMembers() []member {
 	ms = append(ms, member{name: "two properties overridden to the same identifier", cfg: cfg, root: &fam.Spec{Kind: "object", Props: []*fam.Prop{{Label: "a", Spec: str(), ExtIdent: true}, {Label: "b", Spec: str(), ExtIdent: true, ExtSame: "a"}, {Label: "c", Spec: str()}}}})
 	ms = append(ms, member{name: "override equal to an earlier sibling's identifier", cfg: cfg, root: &fam.Spec{Kind: "object", Props: []*fam.Prop{{Label: "a", Spec: str()}, {Label: "b", Spec: &fam.Spec{Kind: "integer"}, ExtIdent: true, ExtIsIdentOf: "a"}}}})
 	ms = append(ms, member{name: "override equal to a later sibling's identifier", cfg: cfg, root: &fam.Spec{Kind: "object", Props: []*fam.Prop{{Label: "z", Spec: str()}, {Label: "a", Spec: &fam.Spec{Kind: "integer"}, ExtIdent: true, ExtIsIdentOf: "z"}}}})
+	// a titled root (type names from titles) next to a definition: when both names normalise to one identifier the root type must still be emitted
+	{
+		tcfg := cfg
+		tcfg.StructNameFromTitle = true
+		ms = append(ms, member{name: "titled root and an object definition (struct names from titles)", cfg: tcfg, root: &fam.Spec{Kind: "object", Title: true, Props: []*fam.Prop{
+			{Label: "own", Spec: str(), Required: true}, {Label: "x", Spec: obj("$defs", &fam.Prop{Label: "u", Spec: &fam.Spec{Kind: "integer"}})}}}})
+	}
 	// the same shapes with the definitions visited in declaration order and outermost first (the sort order of the names decides which one the generator meets first)
 	for _, mb := range append([]member{}, ms...) {
 		if strings.Contains(mb.name, "definitions") {
@@ -212,7 +219,7 @@ func runCollisionMember(c *core.Ctx, mb member, rules map[string]bool, budget in
 			issues = append(issues, w.TypIssues(c.Prog.Repo)...)
 			if fm := w.Models["out.go"]; fm != nil {
 				for _, is := range w.CheckObject(fm, w.Spec, "", "root") {
-					if is.Rule == "A-TAG" {
+					if is.Rule == "A-TAG" || (is.Rule == "A-MAP" && strings.Contains(is.Construct, "object without struct")) {
 						issues = append(issues, is)
 					}
 				}
